@@ -56,6 +56,7 @@ def strategy_impl(draw, tier):
         "bsrc": draw(st.sampled_from(["grid", "call"])),
         "face_order": list(draw(st.permutations(list(range(nf))))),
         "reverse_axes": draw(st.booleans()),
+        "via_2d": draw(st.booleans()),
     }
 
 
@@ -192,6 +193,45 @@ def check(case, ctx):
         raise Violation("halo/interior cell differs from the documented source cell", index=list(i0), dims=base,
                         got=float(gv[i0]), expected=float(exp[i0]), n_bad=int(bad.sum()))
 
+    # the very same input objects updated in place (a time-stepping loop): the halo follows the new values
+    upd = {k: 3 - 2 * v for k, v in arrs.items()}
+    if case["kind"] == "scalar":
+        data.values[...] = xr.DataArray(upd["S"], dims=base).transpose(*order).values
+        model_upd = {"S": upd["S"]}
+    else:
+        uda.values[...] = xr.DataArray(upd["U"], dims=ub).transpose(*uo).values
+        vda.values[...] = xr.DataArray(upd["V"], dims=vb).transpose(*vo).values
+        model_upd = {"X": upd["U"], "Y": upd["V"]}
+    exp_u, known_u, _ = oracle(model_upd, vec, table, N, fullw, case["bnd"], case["fill"])
+    got_u = must_return("pad (inputs updated in place)", pad, data, grid, boundary_width={a: tuple(w) for a, w in case["widths"].items()},
+                        other_component=other, **ckw)
+    gu = np.asarray(got_u.transpose(*base).values)
+    if gu.shape != exp_u.shape or (known_u & (gu != exp_u)).any():
+        raise Violation("after the input objects were updated in place the halo does not hold the new values of the documented cells",
+                        n_bad=int((known_u & (gu != exp_u)).sum()) if gu.shape == exp_u.shape else None)
+    model_arrs = model_upd
+
+    # the same halo seen through the public two-component entry point: diff_2d_vector(to centre) of a (left, left)
+    # vector is (right halo cell - last cell) on the last column/row of each component
+    via2d = False
+    if vec is not None and case.get("via_2d"):
+        res = must_return("diff_2d_vector", grid.diff_2d_vector, {"X": uda, "Y": vda}, to="center", **ckw)
+        for A, da_in, pos in (("X", "U", -1), ("Y", "V", -2)):
+            w1 = {a: ((0, 1) if a == A else (0, 0)) for a in AXES}
+            e1, k1, _ = oracle(model_arrs, A, table, N, w1, case["bnd"], case["fill"])
+            ed = np.diff(e1, axis=pos)
+            kd = np.logical_and(np.take(k1, range(1, N + 1), axis=pos), np.take(k1, range(0, N), axis=pos))
+            b2 = ["face"] + [e[0] for e in case["extra"]] + ["yc", "xc"]
+            if set(res[A].dims) != set(b2):
+                raise Violation("diff_2d_vector component has other dimensions", got=list(res[A].dims), expected=b2)
+            g2 = np.asarray(res[A].transpose(*b2).values)
+            bad2 = kd & (g2 != ed)
+            if g2.shape != ed.shape or bad2.any():
+                i0 = tuple(int(x) for x in np.argwhere(bad2)[0]) if g2.shape == ed.shape else ()
+                raise Violation("diff_2d_vector differs from the difference of the documented halo cell and the edge cell",
+                                component=A, index=list(i0), got=float(g2[i0]) if i0 else None, expected=float(ed[i0]) if i0 else None)
+        via2d = True
+
     # exchange symmetry, from outputs alone (scalar cell ids, full widths)
     sym_checked = False
     if case["kind"] == "scalar":
@@ -237,4 +277,6 @@ def check(case, ctx):
         classes.append("asymmetric")
     if sym_checked:
         classes.append("symmetry-checked")
+    if via2d:
+        classes.append("via-diff_2d_vector")
     return {"nontrivial": bool(crossed > 0 and nonconst), "classes": classes}
